@@ -51,6 +51,12 @@ structure St where
   wrote1 : Bool := false
   filter : String := "n"
   nms : List (Str × Bool) := []
+  dir : Bool := false
+  borig : Str := []
+  bafter1 : Str := []
+  bafter2 : Str := []
+  res1 : String := ""
+  res2 : String := ""
   after1 : Str := []
   after2 : Str := []
 
@@ -99,6 +105,22 @@ def runCase (s : St) : String :=
   let u1 := updateFileF s.fx s.os orc flt s.orig
   let c1 := diffStr u1 s.after1
   let c2 := diffStr (updateFileF s.fx s.os orc flt s.after1) s.after2
+  -- directory mode: the case file is followed by a second file; a stopped run never reaches it
+  let aborted (a : Str) : Bool := match parseFile s.os a with
+    | [] => false
+    | es => (updateEntriesF s.fx orc flt es []).isNone
+  let esB (b : Str) : List Entry := if s.dir then parseFile s.os b else []
+  let bm1 := if aborted s.orig then s.borig else updateFileF s.fx s.os orc flt s.borig
+  let bm2 := if aborted s.after1 then s.bafter1 else updateFileF s.fx s.os orc flt s.bafter1
+  let bu1 := if s.dir then diffStr bm1 s.bafter1 else "ok"
+  let bu2 := if s.dir then diffStr bm2 s.bafter2 else "ok"
+  let bj := if !s.dir then "ok"
+    else if (parseFile s.os s.bafter1).map Entry.key != (parseFile s.os s.borig).map Entry.key then "FAIL:dirfile-keys"
+    else if s.bafter2 != s.bafter1 then "FAIL:dirfile-idempotent" else "ok"
+  let st1 := if updateStatus s.fx orc flt (m0 ++ esB s.borig) false then "ok" else "err"
+  let st2 := if updateStatus s.fx orc flt (parseFile s.os s.after1 ++ esB s.bafter1) false then "ok" else "err"
+  let r1 := if st1 == s.res1 then "ok" else s!"DIFF:model={st1},real={s.res1}"
+  let r2 := if st2 == s.res2 then "ok" else s!"DIFF:model={st2},real={s.res2}"
   let sexps := s.acts.foldr (fun (_, _, a) acc => if a.hasError then acc else a.sexpFields :: a.sexpPlain :: acc) []
   let fails := judge { fx := s.fx, flt := flt, os := s.os, orig := s.orig, ent0 := e0, wrote1 := s.wrote1, after1 := s.after1,
                        ent1 := e1, after2 := s.after2, orc := orc, sexps := sexps }
@@ -114,7 +136,7 @@ def runCase (s : St) : String :=
   let canon := (e0.filter fun e => decide (e.attrs = flagsOf s.os e.name e.attrsStr)).length
   let actok := (s.acts.filter fun (_, _, a) => actOKb a).length
   let model := if c1 == "ok" then "" else s!" model1={hexOf u1}"
-  s!"{s.id} parse0={p0} parse1={p1} upd1={c1} upd2={c2} judge={j} n0={e0.length} n1={e1.length} attrs={attrs} wrong={wrong} delimlike={delimLike} suffixed={if (firstSuffix (splitIncl s.orig)).isSome then 1 else 0} wrote={if s.wrote1 then 1 else 0} filter={s.filter} carried={(e0.filter fun e => !flt e.name).length} carriedcst={(e0.filter fun e => !flt e.name && e.attrs.cst).length} wf={if wf then 1 else 0} canon={canon} acts={s.acts.length} actok={actok} sx={sexps.length} sxclass={sxIn} quoted={if quoted then 1 else 0} crlf={if s.orig.contains '\r' then 1 else 0} bytes={s.orig.length}{model}"
+  s!"{s.id} parse0={p0} parse1={p1} upd1={c1} upd2={c2} res1={r1} res2={r2} bupd1={bu1} bupd2={bu2} bjudge={bj} dir={if s.dir then 1 else 0} judge={j} n0={e0.length} n1={e1.length} attrs={attrs} wrong={wrong} delimlike={delimLike} suffixed={if (firstSuffix (splitIncl s.orig)).isSome then 1 else 0} wrote={if s.wrote1 then 1 else 0} filter={s.filter} carried={(e0.filter fun e => !flt e.name).length} carriedcst={(e0.filter fun e => !flt e.name && e.attrs.cst).length} wf={if wf then 1 else 0} canon={canon} acts={s.acts.length} actok={actok} sx={sexps.length} sxclass={sxIn} quoted={if quoted then 1 else 0} crlf={if s.orig.contains '\r' then 1 else 0} bytes={s.orig.length}{model}"
 
 def step (s : St) (line : String) : IO St := do
   match line.splitOn " " with
@@ -129,6 +151,11 @@ def step (s : St) (line : String) : IO St := do
   | "ent0" :: ws => return (match parseEntry ws with | some e => { s with ent0 := s.ent0.push e } | none => s)
   | "ent1" :: ws => return (match parseEntry ws with | some e => { s with ent1 := s.ent1.push e } | none => s)
   | ["filter", f] => return { s with filter := f }
+  | ["borig", h] => return { s with dir := true, borig := unhexStr h }
+  | ["bafter1", h] => return { s with bafter1 := unhexStr h }
+  | ["bafter2", h] => return { s with bafter2 := unhexStr h }
+  | ["res1", r] => return { s with res1 := r }
+  | ["res2", r] => return { s with res2 := r }
   | ["nm", n, b] => return { s with nms := s.nms ++ [(unhexStr n, b == "1")] }
   | ["wrote1", b] => return { s with wrote1 := b == "1" }
   | ["after1", h] => return { s with after1 := unhexStr h }
